@@ -14,6 +14,7 @@ def write(mod, prop, tier, seed, agg, n_cases, wall, new, hit):
         "rule": getattr(mod, "RULE", ""),
         "samples": agg["samples"][:5],
         "cases_generated": n_cases,
+        "generator_rounds": int(os.environ.get("VERIF_ROUNDS", getattr(mod, "ROUNDS", {}).get(tier, 1))),
         "cases_skipped_by_time_cap": agg["skipped"],
         "monitor_counters": agg["counters"],
         "known_findings_hit": {k: n for k, (_, n) in hit.items()},
